@@ -144,20 +144,32 @@ func (w *WorkerPool) WorkerCount() int {
 
 // Shutdown shuts down the WorkerPool.
 func (w *WorkerPool) Shutdown() *WorkerPool {
-	w.mutex.Lock()
-	defer w.mutex.Unlock()
-
-	if w.isRunning {
-		w.isRunning = false
-
-		for range w.workerCount {
-			w.shutdownSignal <- struct{}{}
-		}
-
+	if w.stopRunning() {
+		// wake the dispatcher after the mutex was released: its wait condition (IsRunning) takes the mutex
+		// while it holds the lock of the queue, which SignalShutdown passes through.
 		w.Queue.SignalShutdown()
 	}
 
 	return w
+}
+
+// stopRunning marks the WorkerPool as not running and signals the workers to shut down (returns false if the WorkerPool
+// was not running).
+func (w *WorkerPool) stopRunning() (wasRunning bool) {
+	w.mutex.Lock()
+	defer w.mutex.Unlock()
+
+	if !w.isRunning {
+		return false
+	}
+
+	w.isRunning = false
+
+	for range w.workerCount {
+		w.shutdownSignal <- struct{}{}
+	}
+
+	return true
 }
 
 // increasePendingTasks increases the number of pending tasks.
